@@ -79,7 +79,7 @@ func runC20(c *core.Ctx, o Options) {
 		"in the library packages (root, session, storages/memory, utils) executes with the must-held lockset containing the guard on the same object — exclusive mode for writes, map updates and deletes — unless the object is still private to its constructor; " +
 		"unexported helpers inherit the lockset common to all their call sites. (2) The store's counters are touched only through sync/atomic. (3) Completeness: every store to any struct field of these packages outside constructor context " +
 		"is to a guarded or atomic field or to one of the named configuration fields whose premise is checked (setter-only before Run; Session.LogonSettings replaced only in the Logon handler before the timers start). " +
-		"A sufficient condition for freedom from data races on those fields; memory reached through application callbacks, custom stores or the fix message objects themselves is not modelled."
+		"(4) Messages sent from loops (the timer goroutines) are built afresh for each send, so an object retained by the message store is never re-stamped concurrently with its retransmission. A sufficient condition for freedom from data races on those fields; memory reached through application callbacks, custom stores or the fix message objects themselves is not modelled."
 	fns := libFuncs(c)
 	if !c.Anchor("library functions", len(fns) > 100, fmt.Sprintf("%d functions", len(fns)), token.NoPos) {
 		return
@@ -207,6 +207,51 @@ func runC20(c *core.Ctx, o Options) {
 				ob.Fail("field %s is written in %s outside its constructor but has no guard in the guarded-by table: a new shared mutable field needs a lock (or an entry with a reason)", key, fn.Name())
 			}
 		})
+	}
+	// fresh-message: a message handed to send is built for that send. Sent messages are retained by the message store and
+	// serialized again by the resend path under DefaultHandler.mu only; re-stamping the same object from a timer goroutine
+	// (under Session.mu) races with that read. Rule: a send inside a loop takes a message whose Build()/New() is inside the same loop.
+	if s := newSess(c); s != nil {
+		nFresh := 0
+		for _, fn := range s.allFuncs() {
+			lps := loops(fn)
+			an.AllInstrs(fn, func(in ssa.Instruction) {
+				call, ok := in.(*ssa.Call)
+				if !ok {
+					return
+				}
+				cal := an.StaticCallee(&call.Call)
+				if cal == nil || !s.isSendPrimitive(cal) {
+					return
+				}
+				var lp []*ssa.BasicBlock
+				for _, l := range lps {
+					for _, b := range l {
+						if b == call.Block() {
+							lp = l
+						}
+					}
+				}
+				if lp == nil {
+					return
+				}
+				nFresh++
+				root := chainRoot(an.Unwrap(call.Call.Args[1]))
+				inLp := false
+				if ri, ok := root.(ssa.Instruction); ok {
+					for _, b := range lp {
+						if b == ri.Block() {
+							inLp = true
+						}
+					}
+				}
+				rc, isCall := root.(*ssa.Call)
+				okBuild := isCall && rc.Call.IsInvoke() && (rc.Call.Method.Name() == "Build" || rc.Call.Method.Name() == "New")
+				c.Check(inLp && okBuild, "fresh-message", fn.Name(), "each iteration sends a newly built message", call.Pos(), "Build() inside the loop",
+					"the message sent in this loop is built outside it ("+an.Render(root)+"): the same object is stored for retransmission and re-stamped on the next iteration, unsynchronised with the resend path that serializes it")
+			})
+		}
+		c.Check(nFresh >= 2, "fresh-message", "", "sends inside loops found", token.NoPos, fmt.Sprint(nFresh), "fewer looped sends than the two timer goroutines")
 	}
 	c.Extra["functions"] = len(fns)
 	c.Extra["guarded_accesses"] = nAcc
